@@ -36,3 +36,17 @@ Theorem C17_siblings_apart : forall (u w : vec3 R) L, dot u u = 1 -> dot w w = 1
 Proof. exact siblings_apart. Qed.
 Print Assumptions C17_first_hydrogen.
 Print Assumptions C17_completing_tetrahedral_two.
+
+(* ---- how many hydrogens, and which geometry (model/Electrons.v over the tables re-extracted from protonate.py / bonds.py) ---- *)
+From Coq Require Import String List ZArith Bool.
+From V Require Import Protonate_gen Electrons ElectronProofs.
+(* with its regular number of bonded heavy atoms every nitrogen named in the property (and the other protein donors) receives exactly its
+   share and a steric number with a construction: His 1+1, Arg 1+2+2, Asn/Gln 2, Trp 1, backbone amide 1, Pro 0, Lys 3, hydroxyl / thiol 1 *)
+Theorem C17_regular_complements : forallb case_ok regular_cases = true.
+Proof. exact regular_complements. Qed.
+Theorem C17_backbone_amide_any_residue : forall res, zget (res ++ "-" ++ "N") pi_sidechains = None -> zget (res ++ "-" ++ "N") standard_charges = None ->
+  protons_to_add "N" res "N" "" 2 = 1%Z /\ steric_number "N" res "N" "" 2 = 3%Z.
+Proof. exact backbone_amide_any_residue. Qed.
+Theorem C17_no_table_entry_for_a_backbone_N :
+  forallb (fun kv => negb (String.eqb (substring 3 2 (fst kv)) "-N" && Nat.eqb (String.length (fst kv)) 5)) (pi_sidechains ++ standard_charges) = true.
+Proof. exact no_residue_keyed_backbone_N. Qed.
